@@ -206,6 +206,7 @@ func (o *Operator) HandleDeploy(ctx context.Context, req *workerpb.DeployOperato
 	if err != nil {
 		return fmt.Errorf("creating filesystem: %w", err)
 	}
+	fs = o.verifFileSystem(fs)
 
 	// Start the DKV database.
 	o.db = dkv.Open(dkv.DBOptions{
